@@ -38,6 +38,9 @@ theorem chunk_end_verified (H : HashFn) (D : Decomp) (c : Ctx) (k : Nat) (ch : C
     ∃ bs d, c.chunkHash = some bs ∧ H c.hdr.chunkHashType bs = some d ∧
       (if ch.compLen = 0 then zeros d.length else d) = ch.digest := by
   unfold endDchunk at h
+  by_cases hoom : c.hdr.compType ≠ 0 ∧ ch.len ≥ allocLimit
+  · rw [if_pos hoom] at h; cases h
+  rw [if_neg hoom] at h
   by_cases h0 : c.hdr.compType = 0
   · simp only [h0, ↓reduceIte] at h
     by_cases hne : ch.compLen ≠ ch.len
@@ -68,8 +71,7 @@ theorem chunk_end_verified (H : HashFn) (D : Decomp) (c : Ctx) (k : Nat) (ch : C
 
 /-- for unit-decoded chunks: whatever any sequence of reads returns is verified content (C15) -/
 theorem reads_return_verified (H : HashFn) (D : Decomp) (f : Bytes) (h : Hdr) (hz : h.compType ≠ 0) (ns : List C15.Call) :
-    ∃ G : List Bytes, (∀ p ∈ G, Good H D h p) ∧
-      ∃ rest, G.flatten = (C15.readCalls H D f (openCtx h) ns).1 ++ rest :=
+    Ver H D h (C15.readCalls H D f (openCtx h) ns).1 :=
   C15.C15 H D f h hz ns
 
 end Zck.C02
